@@ -24,7 +24,7 @@ from mc.ref import typing as rt
 PROPERTY = "C14"
 MAXTASKS = 50
 RULE = (
-    "every sequence of <=2 operations (<=3 in thorough) from an alphabet of 52 concrete operations, every "
+    "every sequence of <=2 operations (<=3 in thorough) from an alphabet of 57 concrete operations, every "
     "sequence of 3 (4 in thorough) over a reduced 14-operation alphabet; "
     "operations range over 5 environments (module default, two instances, a subclass with "
     "max_recursion_depth=2, a subclass registering its own function), 8 queries and 4 documents, each "
@@ -38,7 +38,8 @@ ASSUMPTIONS = [
 ]
 
 D = {
-    "d1": lambda: {"x": 1, "l": [{"a": 1, "b": "ab"}, {"a": 2, "b": "a\nb"}, {"a": 3, "b": "xaby"}], "s": [1, 2, 3]},
+    "d1": lambda: {"x": 1, "l": [{"a": 1, "b": "ab"}, {"a": 2, "b": "a\nb"}, {"a": 3, "b": "xaby"}, {"a": True, "b": "t"},
+                                 {"a": 1.0, "b": "f"}, {"a": False, "b": 0}, {"a": 0}], "s": [1, 2, 3]},
     "d3": lambda: {"x": 2, "l": [{"a": 1, "b": "ab"}, {"a": 2, "b": "a\nb"}, {"a": 3, "b": "xaby"}], "s": [1, 2, 3, 4, 5]},
     "deep": lambda: {"l": [[[[1]]]], "a": {"a": {"a": 1}}},
 }
@@ -62,6 +63,10 @@ Q = {
     "qSl": "$.s[-2:]",
     "qR": "$.s[::-1]",
     "qN": "$.l[?@.b == 'ab' || !@.a]",
+    # literals that are equal under Python's == and different JSON values
+    "qT": "$.l[?@.a == true]",
+    "qO": "$.l[?@.a == 1]",
+    "qOf": "$.l[?@.a == 1.0 || @.a == 0 || @.a == false]",
     "qBad2": "$.l[?match(@.b, '[z-a]b*')]",
     "qBad3": "$.l[?search(@.b, 'a{2,1}')]",
     "qBad": "$.l[?match(@.b, '\\\\d+') || search(@.b, '(?i)a') || match(@.b, $.x) || match(@.b, '[z-a]b*') || search(@.b, 'a{2,1}')]",
@@ -82,6 +87,8 @@ def ops_alphabet(tier_small=False):
                     ("E1", "qD", "deep"), ("SF", "qF", "d3"), ("E1", "qR", "d3"), ("E1", "qD", "alias"),
                     ("E2", "qA", "alias")]:
         ops.append(("find", e, q, d))
+    ops += [("find", "E1", "qT", "d1"), ("find", "E1", "qO", "d1"), ("find", "E1", "qOf", "d1"), ("mfind", "qT", "d1"),
+            ("mfind", "qO", "d1")]
     ops += [("mfind", "qA", "d1"), ("mfind", "qF", "d1"), ("mfind", "qM", "d1"), ("mfind", "qD", "deep"),
             ("mfind", "qD", "alias")]
     ops += [("register", "E1"), ("register", "E2"), ("register", "D")]
